@@ -943,6 +943,11 @@ class Frame:
             m = self.ctx.model.lookup_method(self.ctx.heap[b[1]]['cls'], a)
             if m is not None:
                 return ('boundmethod', b, m.qual)
+            if self.ctx.heap[b[1]].get('constructed'):
+                # the attribute was never assigned: AttributeError (or unbounded recursion through a __getattr__ that reads it)
+                self.ctx.raises.append(('AttributeError', self.guard(), self.where(n)))
+                self.ctx.event('attributeerror', a, (b,), guard=self.guard(), where=self.where(n))
+                raise RaisedInCallee(f'missing attribute {a}')
             return ('attr', b, a)
         if b[0] == 'extref':
             return ('extref', f'{b[1]}.{a}')
@@ -952,7 +957,10 @@ class Frame:
                 return ('funcref', r)
             return ('extref', f'{b[1]}.{a}')
         if a in ('values',) and b[0] != 'dict':
-            return b
+            from .calls import term_kind
+            if b[0] == 'keys' or term_kind(self, b) == 'ndarray':
+                return b
+            return ('nd', b)
         if a == 'columns':
             if b[0] == 'table':
                 return ('keys', tuple(k for k, _ in b[1]), b)
